@@ -6,6 +6,7 @@ import (
 	"bufio"
 	"fmt"
 	"io"
+	"os"
 	"os/exec"
 	"strings"
 	"sync/atomic"
@@ -28,6 +29,8 @@ var (
 	statSolverNs  int64
 	statUnknown   int64
 	statSolverErr int64
+	statRoundTripNs int64
+	statSendNs    int64
 )
 
 func NewSolver(kind string, timeoutMs int) (*Solver, error) {
@@ -78,13 +81,17 @@ func (s *Solver) Send(line string) {
 	if s.trace != nil {
 		io.WriteString(s.trace, line+"\n")
 	}
+	t0 := time.Now()
 	if _, err := io.WriteString(s.in, line+"\n"); err != nil {
 		s.dead = true
 	}
+	atomic.AddInt64(&statSendNs, int64(time.Since(t0)))
 }
 
 // roundTrip sends cmd followed by an echo marker and returns everything printed before the marker.
 func (s *Solver) roundTrip(cmd string) []string {
+	t0 := time.Now()
+	defer func() { atomic.AddInt64(&statRoundTripNs, int64(time.Since(t0))) }()
 	s.sync++
 	marker := fmt.Sprintf("sync-%d", s.sync)
 	s.Send(cmd)
@@ -152,6 +159,12 @@ func (s *Solver) GetValues(refs []string) (map[string]uint64, bool) {
 		return res, true
 	}
 	const chunk = 200
+	tgv := time.Now()
+	defer func() {
+		if d := time.Since(tgv); d > time.Second {
+			fmt.Fprintf(os.Stderr, "[slow get-value] %.1fs for %d refs (%s...)\n", d.Seconds(), len(refs), refs[0])
+		}
+	}()
 	for i := 0; i < len(refs); i += chunk {
 		j := i + chunk
 		if j > len(refs) {
